@@ -22,7 +22,7 @@ def consts(sc):
 
 
 def harness_scen(sc, kind=None, share=None):
-    h = {"obj": dict({"kind": kind or sc["kind"], "keys": sc["keys"], "bounds": [100]}, **({"share": share} if share else {})), "threads": sc["threads"], "scripts": sc["scripts"], "budget": sc.get("budget", 3000)}
+    h = {"obj": dict({"kind": kind or sc["kind"], "keys": sc["keys"], "bounds": [100]}, **({"share": share, "creator": sc["threads"][0]} if share else {})), "threads": sc["threads"], "scripts": sc["scripts"], "budget": sc.get("budget", 3000)}
     if "pre" in sc:
         h["pre"] = sc["pre"]          # initial population, made by the controller before the threads start
     return h
